@@ -352,6 +352,11 @@ func c18Inputs(c *core.Ctx, n int) []c18Input {
 		at := strings.Index(short, bad) + len(bad) + 1
 		ins = append(ins, c18Input{class: "malformed-then-read-error", text: short, limit: at + k, chunk: []int{0, 1, 7}[k], partial: k == 1})
 	}
+	// records that repeat the one before them exactly (the same meal entered twice in a row, a heading with nothing
+	// under it twice): each is a record of its own
+	for _, text := range []string{"x:\nx:\n", "2021/01/01:\n  a: 1\n  b: 2\n2021/01/01:\n  a: 1\n  b: 2\n2021/01/02:\n  c: 3\n", "d:\n  # note: n\n  a: 1\nd:\n  # note: n\n  a: 1\nd:\n  # note: n\n  a: 1\n"} {
+		ins = append(ins, c18Input{class: "repeated-record", text: text, limit: -1}, c18Input{class: "repeated-record", text: text, limit: -1, chunk: 1})
+	}
 	// seekable readers handed over at an offset > 0 (a header block already consumed by the caller)
 	for i := 0; i < n/25+2; i++ {
 		r := c.Rng("resumed", i)
